@@ -507,22 +507,38 @@ where
     fn scan(p: &Self::Ptr, input: (usize, usize), out: &mut Vec<i128>) -> Result<()> {
         out.push(p.len() as i128);
         let mut yielded = 0;
+        // the iterator may refuse malformed offsets; indexing is a separate accessor and is exercised regardless
+        let mut iter_err = None;
         for r in p.iter() {
-            let e = r?;
-            yielded += 1;
-            out.push(inside::<T>(&*e, input));
-            T::scan(&*e, input, out)?;
-        }
-        out.push(yielded);
-        for i in 0..p.len() {
-            match p.get(i)? {
-                Some(e) => {
+            match r {
+                Ok(e) => {
+                    yielded += 1;
                     out.push(inside::<T>(&*e, input));
+                    if let Err(x) = T::scan(&*e, input, out) {
+                        iter_err = Some(x);
+                        break;
+                    }
                 }
-                None => out.push(-1),
+                Err(x) => {
+                    iter_err = Some(x);
+                    break;
+                }
             }
         }
-        Ok(())
+        out.push(yielded);
+        for i in 0..p.len().min(64) {
+            // -1 = None, -2 = controlled panic (slice index), -3 = error
+            match crate::guarded(|| p.get(i).map(|o| o.map(|e| inside::<T>(&*e, input)))) {
+                Ok(Ok(Some(f))) => out.push(f),
+                Ok(Ok(None)) => out.push(-1),
+                Ok(Err(_)) => out.push(-3),
+                Err(()) => out.push(-2),
+            }
+        }
+        match iter_err {
+            Some(x) => Err(x),
+            None => Ok(()),
+        }
     }
     crate::default_only_inits!();
 }
